@@ -1,0 +1,7 @@
+//go:build verif
+
+package verifhook
+
+import "unsafe"
+
+func unsafePointer[T any](p *T) unsafe.Pointer { return unsafe.Pointer(p) }
